@@ -905,7 +905,7 @@ ALL = (["inner-ok", "inner-err", "inner-panic", "handled-no-predicate", "predica
 LEVEL_NOTE = ("Trusted: Lean kernel; the reading of lib.rs:274-512 as TR.Model.Fallback.afterInner/afterBackup and of the async block as the "
               "three-phase machine (validated by the sampled correspondence check, which enumerates the complete strategy x predicate x inner "
               "outcome x backup outcome grid in every run); the harness (manual poller, scripted inner and backup services, the fixed test "
-              "functions given to the builder) and the python diff/monitor. The Rust types guarantee nothing the model relies on. Not covered: "
+              "functions given to the builder — the instance TR.Fallback.test of the model's arbitrary functions) and the python diff/monitor. The Rust types guarantee nothing the model relies on. Not covered: "
               "the call-on-a-clone readiness question (C20), listeners/metrics/tracing, Display/Error::source of FallbackError; the upper layer of a "
               "stack never uses the backup-service strategy.")
 
@@ -919,8 +919,10 @@ SPECS = {
         "transitions": transitions,
         "nontrivial": nontrivial,
         "all_transitions": ALL,
-        "model_modules": ["TR.Model.Fallback", "TR.Lemmas.Fallback", "TR.Lemmas.FallbackDrop", "TR.Lemmas.FallbackStack"],
-        "lean_files": ["TR.Model.Fallback", "TR.Lemmas.Fallback", "TR.Lemmas.FallbackDrop", "TR.Lemmas.FallbackStack"],
+        "model_modules": ["TR.Model.Fallback", "TR.Lemmas.Fallback", "TR.Lemmas.FallbackDrop", "TR.Lemmas.FallbackStack",
+                          "TR.Lemmas.FallbackRun", "TR.Lemmas.FallbackRequest", "TR.Lemmas.FallbackCount"],
+        "lean_files": ["TR.Model.Fallback", "TR.Lemmas.Fallback", "TR.Lemmas.FallbackDrop", "TR.Lemmas.FallbackStack",
+                       "TR.Lemmas.FallbackRun", "TR.Lemmas.FallbackRequest", "TR.Lemmas.FallbackCount"],
         "sizes": (GRID_SIZE + 404, 20000),
         "rule": "the first %d cases of every run enumerate the grid 6 strategies x {no predicate, accepts kind 1, accepts kinds 1-2, rejects all} "
                 "x inner {ok, err1, err2, panic, never} x backup {ok, err3, err1, panic, never} x latency pattern {0,5}x{0,3} ms (25 tagged "
@@ -939,9 +941,11 @@ SPECS = {
                 "unchanged, or the backup failed / was cancelled" % GRID_SIZE,
         "trusted": ["transcription of Fallback::poll_ready (lib.rs:270) and Fallback::call (lib.rs:274-512) in TR.Model.Fallback, sampled by the correspondence check (complete grid)",
                     "harness: manual poller, scripted inner/backup services, test functions handed to the builder", "python diff/monitor"],
-        "assumptions": ["the user-supplied functions are the fixed test functions of the harness (value 'val', value_fn = val+#calls, from_error, "
-                        "from_request_error, exception = kind+10, predicate = bit mask over kinds); the theorems about afterInner hold for these, "
-                        "the structural theorems (success untouched, predicate gate, backup error not dropped) do not depend on them",
+        "assumptions": ["the theorems quantify over ARBITRARY user-supplied functions (TR.Fallback.Cfg: any predicate IErr -> Bool or none, any value, any "
+                        "value function as a sequence Nat -> Resp of responses by invocation number, any from_error / from_request_error / transformation "
+                        "function); a user function is modelled as a total deterministic function of its arguments (the value function: of its invocation "
+                        "number). The correspondence runs are made with the instance TR.Fallback.test = the fixed test functions of the harness (value 'val', "
+                        "value_fn = val+#calls, from_error, from_request_error, exception = kind+10, predicate = bit mask over kinds; test_instance)",
                         "one poll of one call future is atomic (single-threaded runtime)",
                         "the upper layer of a stack uses the same test functions over the injective encoding Inner(e) -> kind 2k, FallbackFailed(e) -> "
                         "kind 2k+1 of the lower layer's error; the caller's payload conversion is kind+100"],
@@ -961,7 +965,20 @@ SPECS = {
                       "second fallback layer on top is a second instance of the same decision function applied to the lower layer's result, "
                       "variant included (upper_sees_variant, stack_is_composition, upper_handles_iff, upper_exception_exact, "
                       "exception_over_failed_backup), in every run (stack_result_exact, upper_callbacks_only_for_lower_errors, "
-                      "stack_success_untouched). "
+                      "stack_success_untouched). All of this for arbitrary predicate and strategy functions (parameters of the model; the harness's "
+                      "test functions are the instance test_instance). At run level additionally: the request given to the inner call, to the backup "
+                      "call and to the from_request_error function is the request the caller handed in — (c, tag) of its arrive "
+                      "(request_forwarded_unchanged, success_untouched_for_that_request); an error the predicate rejects leaves exactly [inner call, "
+                      "inner done, predicate -> no, resp/result Inner(that error)] (rejected_untouched); EVERY invocation of a user function is the "
+                      "predicate on the error of that request's failed inner call or, that error accepted, the strategy's one function with exactly that "
+                      "request and error (callback_justified, strategy_callback_only_if_accepted, user_functions_invoked); the value-function counter is "
+                      "the number of value_fn callbacks in the log, each invocation number is its position among them, and the completion block of an "
+                      "inner call stands in the global log in one piece right after its inner_done, so the request a callback line belongs to is that of "
+                      "the closest preceding inner_done (fnCalls_is_count, value_fn_counter_exact, completion_block_in_one_piece, callback_owner_in_log); "
+                      "a delivered result is the value of the pure reference function resolve of (configuration, the request handed in, the number of "
+                      "value_fn callbacks before the inner_done, inner result, backup result) with no existential left (result_exact_counted, "
+                      "result_is_reference_function), at most one per request (at_most_one_completion_and_result); and the caller's log is postRun of what "
+                      "was delivered (caller_result_is_post_run, caller_view_is_post_run). "
                       "Model tied to the real FallbackLayer by line-for-line agreement on the "
                       "complete grid plus random schedules.",
         "level_note": LEVEL_NOTE,
